@@ -25,7 +25,11 @@ EXTENDS EinoGen
 R == INSTANCE RunRule
 
 CONSTANTS StartCheck,    \* TRUE: interrupt-before is also checked for the initial tasks (the repaired run loop)
-          MaxCalls       \* bound on Invoke/Stream calls per scenario (every resume restarts the step counter)
+          MaxCalls,      \* bound on Invoke/Stream calls per scenario (every resume restarts the step counter)
+          SubNode,       \* "none", or the node that is a nested graph START -> s1 -> s2 -> END (batch modes only)
+          InnerBefore, InnerAfter,   \* inner interrupt-before on s2 / interrupt-after on s1
+          StaleForward   \* TRUE: every later task of the graph node is handed the resumed run's nested checkpoint (the code
+                         \* before the repair of D3); FALSE: only the task restored from the checkpoint is
 
 VARIABLES rs,      \* rule state (RunRule) judging the observations emitted so far
           ch,      \* channels
@@ -40,7 +44,12 @@ Min2(x, y) == IF x < y THEN x ELSE y
 Eager == Mode = "wf"
 Dag == Mode \in {"dag", "wf"}
 Stateful == deco.rerun # {}
-CaseEv == [ev |-> "case", id |-> "m", noid |-> FALSE, subs |-> <<>>,
+InnerCase == [ev |-> "case", id |-> "inner", mode |-> "pregel", nodes |-> <<"s1", "s2">>,
+              edges |-> << <<"start", "s1", "cd">>, <<"s1", "s2", "cd">>, <<"s2", "end", "cd">> >>, branches |-> <<>>, max |-> 0,
+              before |-> IF InnerBefore THEN <<"s2">> ELSE <<>>, after |-> IF InnerAfter THEN <<"s1">> ELSE <<>>, rerun |-> <<>>,
+              state |-> FALSE, fail |-> <<>>, noid |-> FALSE, subs |-> <<>>, post |-> FALSE, hmod |-> FALSE, echo |-> <<>>, x0 |-> "x"]
+HasSub == SubNode \in Nodes
+CaseEv == [ev |-> "case", id |-> "m", noid |-> FALSE, subs |-> IF HasSub THEN <<[node |-> SubNode, g |-> InnerCase]>> ELSE <<>>,
            mode |-> Mode, nodes |-> Scenario.nodes, edges |-> Scenario.edges,
            branches |-> [i \in 1..Len(brs) |-> [from |-> brs[i].from, ends |-> NameSeq(brs[i].ends), multi |-> brs[i].multi, data |-> Mode # "wf"]],
            max |-> deco.max, before |-> NameSeq(deco.before), after |-> NameSeq(deco.after), rerun |-> NameSeq(deco.rerun),
@@ -138,6 +147,17 @@ ResultEv(v) == [ev |-> "result", v |-> v, sets |-> <<>>]
 IntrEv(bef, aft, rer, trail, cnt) == [ev |-> "interrupt", before |-> NodeSeq(bef), after |-> NodeSeq(aft), rerun |-> NodeSeq(rer),
                                       sub |-> Empty, st |-> trail, cnt |-> cnt, hasst |-> Stateful, sets |-> <<"cp-m">>]
 
+\* ------------------------------------------------------------------ the nested graph (one level): START -> s1 -> s2 -> END
+SubP == SubNode \o "/"
+InnerEx(n, v) == <<[ev |-> "exec", p |-> SubP, n |-> n, i |-> v], [ev |-> "done", p |-> SubP, n |-> n]>>
+InnerInfo == [before |-> IF InnerBefore THEN <<"s2">> ELSE <<>>, after |-> IF InnerAfter THEN <<"s1">> ELSE <<>>, rerun |-> <<>>,
+              sub |-> Empty, st |-> <<>>, cnt |-> 0, hasst |-> FALSE]
+\* a fresh inner run on input v; a resumed one continues from its checkpoint (the pending input of s2)
+InnerFresh(v) == LET o1 == Out("s1", v) IN
+  IF InnerBefore \/ InnerAfter THEN [evs |-> InnerEx("s1", v), intr |-> TRUE, ck |-> [input |-> o1], out |-> Empty]
+  ELSE [evs |-> InnerEx("s1", v) \o InnerEx("s2", o1), intr |-> FALSE, ck |-> Empty, out |-> Out("s2", o1)]
+InnerResume(ck) == [evs |-> InnerEx("s2", ck.input), intr |-> FALSE, ck |-> Empty, out |-> Out("s2", ck.input)]
+
 RunInit == /\ rs = R!Idle /\ ch = Empty /\ next = Empty /\ running = Empty /\ step = 0 /\ rstat = "idle"
            /\ ckpt = Empty /\ st = [trail |-> <<>>, saved |-> Empty, cnt |-> 0] /\ attempts = {} /\ calls = 0
 Init == GenInit /\ RunInit
@@ -189,18 +209,25 @@ BatchStep ==
           inp == [n \in DOMAIN next |-> BodyInput(n, restoredRerun)]
           aborting == {n \in DOMAIN next : n \in deco.rerun /\ n \notin attempts}
           failing == {n \in DOMAIN next : FailOf(n) # "none"} \ aborting
-          okNodes == (DOMAIN next) \ (aborting \cup failing)
+          \* the graph node: resumes the nested checkpoint carried by the context if it is handed one, else starts fresh
+          restoredSub == "subck" \in DOMAIN ckpt /\ (("restored" \in DOMAIN ckpt /\ SubNode \in ckpt.restored) \/ StaleForward)
+          inner == IF HasSub /\ SubNode \in DOMAIN next
+                   THEN (IF restoredSub THEN InnerResume(ckpt.subck) ELSE InnerFresh(inp[SubNode]))
+                   ELSE [evs |-> <<>>, intr |-> FALSE, ck |-> Empty, out |-> Empty]
+          subIntr == IF inner.intr THEN {SubNode} ELSE {}
+          okNodes == (DOMAIN next) \ (aborting \cup failing \cup subIntr)
           bodyEvs == LET RECURSIVE B(_)
                          B(k) == IF k > Len(order) THEN <<>>
                                  ELSE LET n == order[k]
                                           base == [p |-> "", n |-> n, i |-> inp[n]] @@ (IF Stateful THEN [st |-> trail2, sx |-> R!FreshStateDigest] ELSE Empty)
                                           csev == IF Stateful THEN <<[ev |-> "cs", p |-> "", k |-> "body", n |-> n, seq |-> st.cnt + Len(order) + k - 1]>> ELSE <<>>
-                                      IN csev \o (IF n \in aborting THEN <<[ev |-> "abort"] @@ base>>
+                                      IN csev \o (IF HasSub /\ n = SubNode THEN inner.evs
+                                          ELSE IF n \in aborting THEN <<[ev |-> "abort"] @@ base>>
                                           ELSE IF n \in failing THEN <<[ev |-> "exec"] @@ base>>
                                           ELSE <<[ev |-> "exec"] @@ base, [ev |-> "done", p |-> "", n |-> n]>>) \o B(k + 1)
                      IN B(1)
           evs0 == PreEvs(order, restoredRerun) \o bodyEvs
-          outs == [n \in okNodes |-> Out(n, inp[n])]
+          outs == [n \in okNodes |-> IF HasSub /\ n = SubNode THEN inner.out ELSE Out(n, inp[n])]
           aft == okNodes \cap deco.after
           st2 == [trail |-> trail2, saved |-> [n \in aborting |-> inp[n]] @@ st.saved, cnt |-> IF Stateful THEN st.cnt + 2 * Len(order) ELSE st.cnt]
       IN IF failing # {} THEN
@@ -208,12 +235,15 @@ BatchStep ==
               /\ rs' = FoldApply(rs, evs0 \o <<[ev |-> "error", class |-> IF FailOf(n) = "err" THEN "node" ELSE "panic", path |-> <<n>>,
                                                  is |-> FailOf(n) = "err", as |-> FailOf(n) = "err", asnode |-> IF FailOf(n) = "err" THEN n ELSE "", sets |-> <<>>]>>)
               /\ rstat' = "error" /\ UNCHANGED <<gvars, ch, next, running, step, ckpt, st, attempts, calls>>
-         ELSE IF aborting # {} THEN
-              \* handleInterruptWithSubGraphAndRerunNodes: fold the other outputs into the channels (no get), rerun inputs zeroed
+         ELSE IF aborting # {} \/ subIntr # {} THEN
+              \* handleInterruptWithSubGraphAndRerunNodes: fold the other outputs into the channels (no get), rerun / graph-node inputs
+              \* zeroed, the nested checkpoint kept under the graph node's key
               LET r == ResolveAll(ch, outs, NodeSeq(okNodes))
                   C2 == Update(r.C, r.writes, r.deps)
-              IN /\ ckpt' = [ch |-> C2, inputs |-> [n \in aborting |-> Empty], st |-> st2, rr |-> aborting]
-                 /\ rs' = FoldApply(rs, evs0 \o r.evs \o <<IntrEv({}, aft, aborting, trail2, st2.cnt)>>)
+                  iev == [IntrEv({}, aft, aborting, trail2, st2.cnt) EXCEPT !.sub = IF subIntr # {} THEN (SubNode :> InnerInfo) ELSE Empty]
+              IN /\ ckpt' = [ch |-> C2, inputs |-> [n \in aborting \cup subIntr |-> Empty], st |-> st2, rr |-> aborting]
+                           @@ (IF subIntr # {} THEN [subck |-> inner.ck] ELSE Empty)
+                 /\ rs' = FoldApply(rs, evs0 \o r.evs \o <<iev>>)
                  /\ rstat' = "interrupted" /\ ch' = C2 /\ next' = Empty /\ st' = st2 /\ attempts' = attempts \cup aborting
                  /\ UNCHANGED <<gvars, running, step, calls>>
          ELSE LET r == Calc(ch, outs, order) IN
@@ -227,7 +257,7 @@ BatchStep ==
                         /\ rstat' = "interrupted" /\ ch' = r.C /\ next' = Empty /\ st' = st2
                         /\ UNCHANGED <<gvars, running, step, attempts, calls>>
                    ELSE /\ rs' = FoldApply(rs, evs0 \o r.evs) /\ ch' = r.C /\ next' = nx /\ step' = step + 1 /\ st' = st2
-                        /\ ckpt' = Empty
+                        /\ ckpt' = IF "subck" \in DOMAIN ckpt THEN [subck |-> ckpt.subck] ELSE Empty   \* the context keeps the checkpoint for the whole call
                         /\ UNCHANGED <<gvars, running, rstat, attempts, calls>>
 
 
@@ -283,7 +313,10 @@ EagerStep ==
 Resume == /\ rstat = "interrupted" /\ calls < MaxCalls
           /\ rs' = R!Apply(rs, [ev |-> "resume", call |-> "invoke", mod |-> 0])
           /\ ch' = ckpt.ch /\ next' = ckpt.inputs /\ st' = ckpt.st /\ step' = 0 /\ rstat' = "run"
-          /\ ckpt' = IF "rr" \in DOMAIN ckpt THEN [rr |-> ckpt.rr] ELSE Empty
+          \* what stays visible during the resumed call: the rerun set (pre-handlers rebuild), the nested checkpoint carried by the
+          \* context, and which tasks were restored from the checkpoint (only the first step of the call consumes "restored")
+          /\ ckpt' = (IF "rr" \in DOMAIN ckpt THEN [rr |-> ckpt.rr] ELSE Empty)
+                      @@ (IF "subck" \in DOMAIN ckpt THEN [subck |-> ckpt.subck, restored |-> DOMAIN ckpt.inputs] ELSE Empty)
           /\ running' = Empty /\ calls' = calls + 1 /\ UNCHANGED <<gvars, attempts>>
 
 RunNext == Begin \/ Start \/ BatchStep \/ EagerStep \/ Resume
